@@ -84,6 +84,11 @@ func (s *State) Encode() []byte {
 
 /*Decode - implement SecureSerializableValueI interface */
 func (s *State) Decode(data []byte) error {
+	// a client state is exactly the 32 hash bytes and three 8-byte integers Encode writes; the value of any other
+	// node of the state trie (smart contract nodes live in the same trie) is not a client state
+	if len(data) != 32+3*8 {
+		return errors.New("invalid state")
+	}
 	buf := bytes.NewBuffer(data)
 	var origin int64
 	var balance currency.Coin
